@@ -1,0 +1,11 @@
+//go:build !verif
+
+package pogreb
+
+// Verification hooks are compiled in only with the "verif" build tag.
+
+func verifHashSeed(seed uint32) uint32 { return seed }
+
+func verifEvent(db *DB, event string) {}
+
+func verifYield(db *DB, point string) {}
